@@ -194,7 +194,14 @@ func (e *Exec) evalBinary(x *ast.BinaryExpr, st *State, ctx *Ctx) string {
 		sliceNil := func(t types.Type, other ast.Expr) (string, bool) {
 			// nil-ness of a slice is not part of the model (nil and empty are the same sequence): a comparison with nil
 			// is an unknown boolean, except for values that are visibly fresh literals
-			if !(isTreeList(t) || isStringList(t) || isRefList(t)) {
+			if isStringList(t) {
+				v := e.eval(other, st, ctx)
+				if x.Op == token.EQL {
+					return "((_ is SliceNil) " + v + ")", true
+				}
+				return "(not ((_ is SliceNil) " + v + "))", true
+			}
+			if !(isTreeList(t) || isRefList(t)) {
 				return "", false
 			}
 			e.eval(other, st, ctx)
@@ -342,7 +349,7 @@ func (e *Exec) evalIndex(x *ast.IndexExpr, st *State, ctx *Ctx, commaOk bool) (s
 		}
 		return "(lnth (ls " + l + ") " + i + ")", ""
 	case isStringList(t):
-		l := e.eval(x.X, st, ctx)
+		l := "(sitems " + e.eval(x.X, st, ctx) + ")"
 		i := e.eval(x.Index, st, ctx)
 		e.nopanic(st, x.Pos(), "index", "(and (<= 0 "+i+") (< "+i+" (sllen "+l+")))", exprString(x))
 		if i == "0" {
@@ -404,7 +411,8 @@ func (e *Exec) evalSlice(x *ast.SliceExpr, st *State, ctx *Ctx) string {
 		ln, take, drop, wrapL, wrapR = "(llen (ls "+v+"))", "ltake", "ldrop", "(VList ", ")"
 		v = "(ls " + v + ")"
 	case isStringList(t):
-		ln, take, drop = "(sllen "+v+")", "sltake", "sldrop"
+		v = "(sitems " + v + ")"
+		ln, take, drop, wrapL, wrapR = "(sllen "+v+")", "sltake", "sldrop", "(Slice ", ")"
 	case isRefList(t):
 		ln, take, drop = "(rllen "+v+")", "rltake", "rldrop"
 	case sortOf(t) == "String":
@@ -498,7 +506,7 @@ func (e *Exec) evalComposite(x *ast.CompositeLit, st *State, ctx *Ctx) string {
 		for i := len(x.Elts) - 1; i >= 0; i-- {
 			r = "(SCons " + e.eval(x.Elts[i], st, ctx) + " " + r + ")"
 		}
-		return r
+		return "(Slice " + r + ")"
 	case isRefList(t):
 		r := "RNil"
 		for i := len(x.Elts) - 1; i >= 0; i-- {
